@@ -203,6 +203,10 @@ def pyfftw_call(array_in, array_out, direction='forward', axes=None,
     else:
         fftw_plan = fftw_plan_in
 
+    if direction == 'backward' and halfcomplex and len(axes) > 1:
+        # FFTW always destroys the input of multi-dimensional c2r transforms
+        array_in = array_in.copy()
+
     if not normalise_idft and direction=='forward':
         fftw_plan(array_in, array_out, normalise_idft=True)
     else:
